@@ -1,0 +1,15 @@
+//go:build verif
+
+package tree
+
+// VerifLastIndex exposes the in-memory lastIndex of the append-only tree (-2 = cache not initialised).
+func (t *AppendOnlyTree) VerifLastIndex() int64 { return t.lastIndex }
+
+// VerifCache exposes a copy of the in-memory frontier cache.
+func (t *AppendOnlyTree) VerifCache() [32][32]byte {
+	var out [32][32]byte
+	for i := range t.lastLeftCache {
+		out[i] = t.lastLeftCache[i]
+	}
+	return out
+}
